@@ -140,6 +140,61 @@ def range_rule(ctx, R2):
 
 
 
+def fixed_reg_mode_rule(ctx, R3, X=None):
+    """The operand-size detection loop of asm_candidates, evaluated on the operand lists of every row with a fixed 16-bit register operand
+    (the dx port of in/out), as the Intel parser delivers them and as the AT&T parser does (register operands carry a 'txt' key): shared by C02 and C19."""
+    from ..consteval import Evaluator as _Ev3, Obj as _Obj3, NotConst as _NC3
+    X = X or x86model(ctx)
+    arch, E = X.arch, X.env
+    ac = arch.method('x86_mn', 'asm_candidates')
+    det = None
+    for n in walk_no_nested(ac):
+        if isinstance(n, ast.For) and u(n.iter) == 'args_eval' and any(isinstance(x, ast.Assign) and u(x.targets[0]) == 'self.mnemo_mode' for s2 in n.body for x in ast.walk(s2)):
+            det = n
+    if det is None:
+        raise AnalysisError('asm_candidates: the loop that detects the operand mode from the operands was not found')
+    afs_ = X.afs
+    fixed16 = [k for k in ('r_dx',) if isinstance(E.get(k), dict) and E[k].get(afs_.size) == afs_.u16]
+    n_fixed = 0
+    seen_rows = set()
+    for row, opc, nm in X.variants:
+        for fk in fixed16:
+            if E[fk] not in list(row.rm) or E['r_eax'] not in list(row.rm) or row.idx in seen_rows:
+                continue
+            seen_rows.add(row.idx)
+            for acc_size in (afs_.u08, afs_.u16, afs_.u32):
+                for parser in ('intel', 'att'):
+                    acc = {0: 1, afs_.ad: False, afs_.size: acc_size}
+                    ops = [dict(E[fk]) if d == E[fk] else dict(acc) for d in row.rm if d in (E[fk], E['r_eax'])]
+                    if parser == 'att':
+                        for o_ in ops:
+                            o_['txt'] = 'reg'          # the memo ia32_att.p_register_* leaves on a register operand
+                    me3 = _Obj3('self')
+                    me3.mnemo_mode = None
+                    scope = dict(E)
+                    scope.update({'self': me3, 'name': row.name, 'args_eval': ops, 'x86_afs': afs_, 'u16': afs_.u16, 'u32': afs_.u32, 'u08': afs_.u08})
+                    for fname_, fnode_ in arch.funcs.items():
+                        scope.setdefault(fname_, fnode_)
+                    ev3 = _Ev3({})
+                    ev3.env = scope
+                    try:
+                        ev3.exec_stmts([det], scope)
+                    except _NC3 as e:
+                        raise AnalysisError('asm_candidates: operand-mode detection loop not evaluable on %s: %s' % (row.name, e))
+                    got = me3.mnemo_mode or afs_.u32
+                    want = afs_.u16 if acc_size == afs_.u16 else afs_.u32
+                    inst = 'mode-detection:%s:%s:%s:%s' % (row.name, ' '.join('%02X' % b for b in row.opc), acc_size, parser)
+                    n_fixed += 1
+                    if got == want:
+                        R3.ok(inst, sample='%s with a %s accumulator and the fixed register %s (%s operands): mode %s' % (row.name, acc_size, fk[2:], parser, got))
+                    else:
+                        R3.violation(inst, 'mode:detect:fixed-reg:%s:%s:%s' % (row.name, acc_size, parser), 'the fixed 16-bit register %s of `%s` selects the 16-bit operand size although the data '
+                                     'operand is %s (operands as the %s parser delivers them): the candidate gets a 0x66 prefix' % (fk[2:], row.name, acc_size, parser), where(arch, det),
+                                     witness="asm('in al, dx') == [66 ec]" if parser == 'intel' else "asm_att('in %dx, %al') == [66 ec] while asm('in al, dx') == [ec]")
+    if n_fixed < 12:
+        raise AnalysisError('rows with a fixed 16-bit register operand (in/out dx): %d evaluations, expected at least 12' % n_fixed)
+
+
 def run(ctx, report):
     X = x86model(ctx)
     arch, E, afs = X.arch, X.env, X.afs
@@ -351,43 +406,7 @@ def run(ctx, report):
                 R3.violation(inst, 'mode:detect:u32-nobreak', 'a 32-bit register no longer ends the operand-mode detection: a later 16-bit operand can override it', where(arch, st))
 
     from ..consteval import Evaluator as _Ev3, Obj as _Obj3, Native as _Nat3, NotConst as _NC3
-    # a register the table fixes (the dx port of in/out) does not select the operand size: the detection loop is evaluated on the
-    # operand lists of every row with a fixed 16-bit register operand
-    afs_ = X.afs
-    fixed16 = [k for k in ('r_dx',) if isinstance(E.get(k), dict) and E[k].get(afs_.size) == afs_.u16]
-    n_fixed = 0
-    seen_rows = set()
-    for row, opc, nm in X.variants:
-        for fk in fixed16:
-            if E[fk] not in list(row.rm) or E['r_eax'] not in list(row.rm) or row.idx in seen_rows:
-                continue
-            seen_rows.add(row.idx)
-            for acc_size in (afs_.u08, afs_.u16, afs_.u32):
-                acc = {0: 1, afs_.ad: False, afs_.size: acc_size}
-                ops = [dict(E[fk]) if d == E[fk] else dict(acc) for d in row.rm if d in (E[fk], E['r_eax'])]
-                me3 = _Obj3('self')
-                me3.mnemo_mode = None
-                scope = dict(E)
-                scope.update({'self': me3, 'name': row.name, 'args_eval': ops, 'x86_afs': afs_, 'u16': afs_.u16, 'u32': afs_.u32, 'u08': afs_.u08})
-                for fname_, fnode_ in arch.funcs.items():
-                    scope.setdefault(fname_, fnode_)
-                ev3 = _Ev3({})
-                ev3.env = scope
-                try:
-                    ev3.exec_stmts([det], scope)
-                except _NC3 as e:
-                    raise AnalysisError('asm_candidates: operand-mode detection loop not evaluable on %s: %s' % (row.name, e))
-                got = me3.mnemo_mode or afs_.u32
-                want = afs_.u16 if acc_size == afs_.u16 else afs_.u32
-                inst = 'mode-detection:%s:%s:%s' % (row.name, ' '.join('%02X' % b for b in row.opc), acc_size)
-                n_fixed += 1
-                if got == want:
-                    R3.ok(inst, sample='%s with a %s accumulator and the fixed register %s: mode %s' % (row.name, acc_size, fk[2:], got))
-                else:
-                    R3.violation(inst, 'mode:detect:fixed-reg:%s:%s' % (row.name, acc_size), 'the fixed 16-bit register %s of `%s` selects the 16-bit operand size although the data operand is %s: '
-                                 'the candidate gets a 0x66 prefix' % (fk[2:], row.name, acc_size), where(arch, det), witness="asm('in al, dx') == [66 ec]")
-    if n_fixed < 6:
-        raise AnalysisError('rows with a fixed 16-bit register operand (in/out dx): %d evaluations, expected at least 6' % n_fixed)
+    fixed_reg_mode_rule(ctx, R3, X)
 
     # MMX/SSE rows never take part in the 16/32-bit operand-mode detection (0x66 is their mandatory prefix)
     cb = None
@@ -594,6 +613,51 @@ def run(ctx, report):
         else:
             R8.violation(inst, 'asm-validity:%s' % pr, '_dis rejects (opcode, mandatory prefix) pairs with %s, which the assembler never consults: it offers encodings the '
                          'disassembler reports as no instruction' % pr, where(arch, ac), witness="asm('andss xmm0, xmm1') == f3 0f 54 c1")
+
+    # ---------------------------------------------------------------- D9 mandatory prefix of names shared by the mm and the xmm form
+    R9 = report.rule('C02.D9', 'MMX/SSE mnemonics spelled alike for the mm and the xmm form get the 0x66 prefix exactly when an operand is an xmm register, wherever it stands', floor=100)
+    mm_if = None
+    for n in walk_no_nested(ac):
+        if isinstance(n, ast.If) and u(n.test) == 'name in mnemo_mmx_hash':
+            mm_if = n
+    if mm_if is None:
+        raise AnalysisError('asm_candidates: the branch `name in mnemo_mmx_hash` was not found')
+    from ..consteval import Evaluator as _Ev9, Obj as _Obj9, Native as _Nat9, NotConst as _NC9
+    hash9 = E['mnemo_mmx_hash']
+    lg9 = _Obj9('log')
+    for k_ in ('debug', 'error', 'info', 'warning'):
+        setattr(lg9, k_, _Nat9(lambda *a: None))
+    afs9 = X.afs
+    shared = sorted(nm for nm, row in hash9.items() if isinstance(nm, str) and [p_ for p_ in range(4) if nm == X.mmx_set_suffix(row, p_)] == [0, 1])
+    if len(shared) < 30:
+        raise AnalysisError('mnemonics shared by the mm and xmm forms: %d found (paddb, movd, pextrw ... expected)' % len(shared))
+
+    def op9(size):
+        return {afs9.ad: False, afs9.size: size, 1: 1}
+    shapes = [('xmm,xmm', [op9(afs9.xmm), op9(afs9.xmm)], True), ('xmm,r32', [op9(afs9.xmm), op9(afs9.u32)], True), ('r32,xmm', [op9(afs9.u32), op9(afs9.xmm)], True),
+              ('mem,xmm', [{afs9.ad: afs9.u32, afs9.size: afs9.u32, 1: 1}, op9(afs9.xmm)], True), ('r32,xmm,imm', [op9(afs9.u32), op9(afs9.xmm), {afs9.ad: False, afs9.size: afs9.u32, afs9.imm: 3}], True),
+              ('mm,mm', [op9(afs9.mm), op9(afs9.mm)], False), ('r32,mm', [op9(afs9.u32), op9(afs9.mm)], False), ('mm,mem', [op9(afs9.mm), {afs9.ad: afs9.u32, afs9.size: afs9.u32, 1: 1}], False)]
+    for nm in shared:
+        bad = []
+        for label, args9, want66 in shapes:
+            scope = dict((k_, v_) for k_, v_ in E.items() if isinstance(v_, (str, int, bool, list, tuple, dict)) or v_ is None)
+            pf = []
+            scope.update({'name': nm, 'args_eval': [dict(a_) for a_ in args9], 'prefix': pf, 'log': lg9, 'x86_afs': afs9, 'mmx_set_suffix': _Nat9(X.mmx_set_suffix)})
+            ev9 = _Ev9({})
+            ev9.env = scope
+            try:
+                ev9.exec_stmts(mm_if.body, scope)
+            except _NC9 as e:
+                raise AnalysisError('asm_candidates: mandatory-prefix selection not evaluable for %s: %s' % (nm, e))
+            if (0x66 in pf) != want66:
+                bad.append((label, list(pf)))
+        inst = 'shared-name:%s' % nm
+        if bad:
+            R9.violation(inst, 'sse-prefix:%s' % ';'.join(b_[0] for b_ in bad)[:60], 'the assembler gives `%s %s` the prefixes %s: the 0x66 prefix selects the xmm form, so an xmm operand in that position is '
+                         'assembled as the mm register of the same number' % (nm, bad[0][0], bad[0][1]), where(arch, mm_if), witness="asm('movd eax, xmm1') == 0f 7e c8 (movd eax, mm1)")
+        else:
+            R9.ok(inst, sample='%s: 0x66 iff an operand is xmm, on %d operand shapes' % (nm, len(shapes)), nontrivial=(len(R9.nontrivial) < 120))
+
 
 
 def imm_accumulate_rule(R4, att, pa):
